@@ -103,7 +103,7 @@ PROFILES = {
                    p_all_fixed=0.01, p_callback=0.6, p_soc_bias=0.25, p_linear=0.45),
     "C02": profile(p_bounds=0.8, p_scale=0.4, p_nonlinear=0.6, p_linear=0.5, p_fixed=0.45, p_dict=0.4,
                    p_inconsistent=0.01, p_all_fixed=0.03),
-    "C03": profile(p_nonlinear=0.7, p_linear=0.3, p_filter=0.4, p_noise=0.2),
+    "C03": profile(p_nonlinear=0.7, p_linear=0.3, p_filter=0.4, p_noise=0.2, p_zero_tol=0.15),
     "C05": profile(p_no_obj=0.2, p_history=0.7, p_callback=0.4),
     "C06": profile(p_nonlinear=1.0, p_no_obj=0.15, p_disp=0.25, p_scale=0.35, p_fixed=0.4, p_dict=0.4,
                    p_mutating_functions=0.2),
@@ -397,7 +397,7 @@ def cut_case(prop, seed, idx, tier):
         # an earlier call in the same (freshly forked) process whose callback asks for the *other* convention:
         # whatever the library remembers about callbacks between calls must not leak into this one
         other = {"partial": "partialkw", "partialkw": "partial", "obj": "objkw", "objkw": "obj", "pos": "kw",
-                 "kw": "pos", "lambda": "kw", "posdefault": "kw"}[stmt["callback"]["style"]]
+                 "kw": "pos", "lambda": "kw", "posdefault": "kw", "objfalsy": "objkw"}[stmt["callback"]["style"]]
         prelude = {"n": 1, "x0": [0.5], "obj": {"fam": "quad", "c": [0.0], "d": [1.0], "e": 0.0, "ret": "float", "args": None},
                    "bounds": None, "linear": [], "nonlinear": [], "callback": {"style": other, "mutate": False, "stop_at": None},
                    "options": {"maxfev": 4}, "constants": {}}
